@@ -688,18 +688,12 @@ func TestC08(t *testing.T) {
 	if hx.Tier() == "thorough" {
 		nOps = 160
 	}
+	nSeq++ // + one dedicated sequence for the mixed-transaction experiment
 	for seq := 0; seq < nSeq; seq++ {
 		s := hx.NewSuite(t, 1)
 		w := &bx.World{S: s, Height: s.Ctx.BlockHeight()}
-		if seq == 0 {
-			nOps0 := nOps
-			nOps = 12
-			defer func() { nOps = nOps0 }()
-		} else if nOps == 12 {
-			nOps = 70
-			if hx.Tier() == "thorough" {
-				nOps = 160
-			}
+		if seq == nSeq-1 {
+			nOps = 0
 		}
 		r := &run{w: w, out: out, rng: rng, gov: authtypes.NewModuleAddress(govtypes.ModuleName).String(), contract: map[int]common.Address{}, ctOf: map[string]int{}, nextCt: 10, last: map[string]string{}}
 		for i := 0; i < 3; i++ {
@@ -728,8 +722,8 @@ func TestC08(t *testing.T) {
 		for i := 0; i < nOps; i++ {
 			r.randomOp()
 		}
-		if seq == 0 {
-			// last thing of the first sequence (it leaves the token's books broken when the defect is present)
+		if seq == nSeq-1 {
+			// dedicated last sequence: the experiment leaves the token's books broken when the defect is present
 			r.mixedExperiment()
 		}
 	}
